@@ -33,7 +33,12 @@ def grid_cases(chk, seg, w, cases, descr):
     if dist == "cosine_cluster":
         N, discont, rounded = mirror_alloc(w)
         adj = list(rounded)
-        adj[0] -= int(sum(rounded) - N)
+        diff = int(sum(rounded) - N)
+        if adj[0] - diff >= 0:
+            adj[0] -= diff
+        else:                                   # root section too short: one at a time from the (first) longest section
+            for _ in range(diff):
+                adj[adj.index(max(adj))] -= 1
         cases.append("chk_alloc (%d)%%Z [%s] [%s]" % (N, "; ".join("(%d)%%Z" % r for r in rounded), "; ".join("(%d)%%Z" % r for r in adj)))
         descr.append(dict(what="alloc", N=N, discont=discont))
         ct = []
@@ -181,7 +186,12 @@ def geometry_oracle(chk, ac, a):
         starved = False
         if w.get("grid", {}).get("distribution", "cosine_cluster") == "cosine_cluster":
             Ng, dsc, rnd = mirror_alloc(w)
-            rnd[0] -= int(sum(rnd) - Ng)
+            dff = int(sum(rnd) - Ng)
+            if rnd[0] - dff >= 0:
+                rnd[0] -= dff
+            else:
+                for _ in range(dff):
+                    rnd[rnd.index(max(rnd))] -= 1
             starved = any(r <= 0 for r in rnd)      # MachUpX warns: a cluster interval received no control points
         if starved:
             pass
@@ -224,6 +234,12 @@ def run(chk):
     n = chk.q(40, 400)
     for it in range(n):
         ac = gen.gen_aircraft(rng, chk.hist, max_wings=3, sides=("both", "both", "left", "right"), qc_points_p=0.25, N=None)
+        if it == 0:
+            # few control points, a very short first clustering section and an extra cluster point: the rounded section counts
+            # exceed N by more than the root section holds (documented outcome: a warning about a section without control points)
+            ac = gen.simple_wing_aircraft(N=4, reid=False)
+            ac["wings"]["main_wing"]["grid"]["cluster_points"] = [0.41]
+            ac["wings"]["main_wing"]["control_surface"].update(root_span=0.01, tip_span=0.8)
         try:
             sc = gen.build_scene(MX, {"scene": {"atmosphere": {"rho": 0.0023769}}}, [("a", ac, {"velocity": 50.0}, {})])
         except Exception as e:
